@@ -11,8 +11,8 @@ SIZES = {"quick": 12000, "thorough": 300000}
 BATCH = 3000
 RULE = ("op sequences: first `clock T0` (T0 = 1.9e12 + offsets on/around bucket and cycle boundaries), 0-5 system rules over the five "
         "metric types x strategies {-1,1,0,2} with boundary triggers (integers the aggregates can reach, +-0.5, 0, +Inf, a slice of "
-        "invalid and NaN triggers), injected load/cpu at/around the triggers, then 10-90 ops: inbound/outbound entries over 4 resources "
-        "with batch counts {0,1,2,3,7}, exits in random order, time steps {0,1,50..400,499,500,501,999,1000,1001,>array, to next bucket "
+        "invalid and NaN triggers), injected load/cpu at/around the triggers, then 10-90 ops: inbound / outbound / default-type (no WithTrafficType option) entries over 4 resources "
+        "with batch counts {0,1,2,3,7,none}, exits in random order, time steps {0,1,50..400,499,500,501,999,1000,1001,>array, to next bucket "
         "boundary}, rule reloads, stat reads; four profiles (mixed, burst = many entries per bucket, bbr = load above trigger with "
         "completions in the window so that the capacity estimate is the deciding term, rt = response times of a few ms against avgRT triggers between whole ms). Non-trivial = the case contains at least one "
         "system block and one inbound pass decided while >=1 rule was loaded; distinct by (multiset of loaded (metric,strategy), "
@@ -130,8 +130,11 @@ def gen_case(rng, cid):
         r = rng.random()
         if r < (0.45 if profile != "burst" else 0.6):
             nid += 1
-            d = "in" if rng.random() < p_in else "out"
-            b = rng.choice([1, 1, 1, 1, 2, 3, 0, 7])
+            # `default` = api.Entry without WithTrafficType (pooled options must not inherit the previous call's type),
+            # `-` = without WithBatchCount
+            d = "in" if rng.random() < p_in else rng.choice(["out", "default", "default"])
+            b = rng.choice([1, 1, 1, 1, 2, 3, 0, 7, "-", "-"])
+            GEN_STATS["entry:" + d] += 1
             ops.append(f"entry e{nid} r{rng.randrange(4)} {d} {b}")
             live.append(f"e{nid}")
         elif r < 0.68:
@@ -209,19 +212,8 @@ def measure(ctx, eng):
 
 
 def run(ctx):
-    import os
     import sys
-    from vlib import core, std
-    # DESIGN 2.6: which recorded findings still reproduce decides which variant of the model fragment the driver
-    # runs (as-is while the finding is present, repaired once the tree under test no longer shows it)
-    os.environ.pop("VERIF_C07_REPAIRED", None)
-    binary, _ = core.build_harness()
-    if binary is not None:
-        p = os.path.join(core.ROOT, "replays", "known", "C07-nan-trigger.ops")
-        impl, _ = core.run_impl(binary, PROP, open(p).read())
-        if impl is not None and any(l.startswith("entry ") and l.endswith("=> pass") for l in impl):
-            os.environ["VERIF_C07_REPAIRED"] = "nan-trigger"
-            ctx.cov["repaired_findings"] = ["nan-trigger"]
+    from vlib import std
     return std.run(ctx, sys.modules[__name__], extra=measure)
 
 
@@ -245,8 +237,8 @@ def densify(ops, rng):
             out.append("stat")
         if rng.random() < 0.3 and not o.startswith("case"):
             k += 1
-            d = rng.choice(["in", "out"])
-            out.append(f"entry probe{k} rp {d} 1")
+            d = rng.choice(["in", "out", "default"])
+            out.append(f"entry probe{k} rp {d} {rng.choice(['1', '-'])}")
             out.append(f"exit probe{k}")
     return out
 
